@@ -208,3 +208,24 @@ META["C13"] = {
                   "draw + one-hot columns reproduce the Gram).",
     "TECHNIQUE": "deterministic simulation with a scripted random source (zero / one-hot draws, key log) over posteriors from seeded smoother histories",
 }
+
+META["C17"] = {
+    "LEVEL": "exploration",
+    "TIERS": {"quick": 320, "thorough": 12000},
+    "WALLCAP": {"quick": 300, "thorough": 3000},
+    "RULE": ("One evaluation = one seeded polynomial map (n_in,d)->(n_out,d) (non-square shapes included), evaluation point, AD "
+             "mode and sequence of 2-4 trace/diagonal calls threaded with the returned state. The probe source is scripted with "
+             "the complete sign cube 2^(n*d) (n*d <= 12 quick / 14 thorough), so the handler's average must equal the exact "
+             "blocks computed from the coefficient table (1e-11); keys are logged; six corruptions of fun/x must raise. "
+             "Distinct = distinct (map, point, mode, call sequence); non-trivial = the Jacobian has more than one entry."),
+    "COMPONENTS": {"real": ["jacobian_materialize", "jacobian_monte_carlo_fwd", "jacobian_monte_carlo_rev", "_verify_fun_and_x"],
+                   "stub": ["random source: backend.random.rademacher scripted with the full sign cube; split logged"],
+                   "seam": ["probdiffeq.backend.random module attributes"]},
+    "PROBES": ["cube_probes", "corruptions_rejected"],
+    "ASSUMPTIONS": ["exactly-unbiased is decided by full enumeration of the probes inside one call (exhaustive per call), the "
+                    "space of maps/points/shapes is sampled by seed"],
+    "LEVEL_TEXT": "Seeded exploration over maps, points and shapes with the probe source owned by the simulator and enumerated "
+                  "completely inside each call; key protocol over call sequences.",
+    "LEVEL_NOTE": "Trusted: sim/randseam.py; the coefficient-table Jacobian in checks/c17.py.",
+    "TECHNIQUE": "deterministic simulation with a scripted random source: complete sign-cube enumeration per call, key log over call sequences, argument corruption",
+}
